@@ -118,14 +118,15 @@ Inductive reply :=
 
 Definition is_err (r : reply) : bool := match r with RErr _ => true | _ => false end.
 
-Definition truncated (n : name) (c : ino) : ino :=
+(** O_TRUNC / O_CREAT.  Only image names ever hold an image (links are image-to-image and
+    metadata-to-metadata), so for the other names "truncate or create" is simply "becomes empty". *)
+Definition truncated (c : ino) : ino :=
   match c with IImg id _ => IImg id 0 | _ => IEmpty end.
 
 Definition created (w : fs) (n : name) : fs :=
-  match n with
-  | Img _ => mkfs (updf (files w) n (Some (IImg (nextid w) 0))) (N.succ (nextid w))
-  | _ => set_file w n (Some IEmpty)
-  end.
+  mkfs (updf (files w) n (Some (IImg (nextid w) 0))) (N.succ (nextid w)).
+
+Definition is_img (n : name) : bool := match n with Img _ => true | _ => false end.
 
 Definition apply_call (w : fs) (c : call) : fs * reply :=
   match c with
@@ -138,17 +139,22 @@ Definition apply_call (w : fs) (c : call) : fs * reply :=
   | COpenTrunc n =>
       match files w n with
       | None => (w, RErr ENOENT)
-      | Some c => (set_file w n (Some (truncated n c)), ROk)
+      | Some c => (set_file w n (Some (if is_img n then truncated c else IEmpty)), ROk)
       end
   | COpenCreatTrunc n =>
-      match files w n with
-      | None => (created w n, ROk)
-      | Some c => (set_file w n (Some (truncated n c)), ROk)
-      end
+      if is_img n then
+        match files w n with
+        | None => (created w n, ROk)
+        | Some c => (set_file w n (Some (truncated c)), ROk)
+        end
+      else (set_file w n (Some IEmpty), ROk)
   | COpenRW n =>
       match files w n with None => (w, RErr ENOENT) | Some _ => (w, ROk) end
   | COpenCreat n =>
-      match files w n with None => (created w n, ROk) | Some _ => (w, ROk) end
+      match files w n with
+      | None => (if is_img n then created w n else set_file w n (Some IEmpty), ROk)
+      | Some _ => (w, ROk)
+      end
   | CWriteAll n c =>
       match files w n with None => (w, RErr EIO) | Some _ => (set_file w n (Some c), ROk) end
   | CClose _ => (w, ROk)
@@ -179,7 +185,8 @@ Definition apply_call (w : fs) (c : call) : fs * reply :=
   | CPwriteImg n =>
       match files w n with
       | Some (IImg id g) => (set_file w n (Some (IImg id (N.succ g))), ROk)
-      | _ => (w, RErr EIO)
+      | Some _ => (w, RErr EIO)
+      | None => (w, ROk)       (* the descriptor outlives the name: the write goes to an unlinked inode *)
       end
   end.
 
@@ -337,8 +344,10 @@ Fixpoint chain_from (d : dname -> option disk) (fuel : nat) (cur : option dname)
     - [fix_dup]    createDisk refuses a snapshot name that is already in diskData          (F9)
     - [fix_rev]    revertDisk refuses a target that is not a chain snapshot                (F10)
     - [fix_commit] createDisk keeps the new head when only the directory sync after the
-                   rename of volume.meta failed                                            (F11) *)
-Record cfg := mkcfg { maxlen : nat; fixed : bool; fix_dup : bool; fix_rev : bool; fix_commit : bool }.
+                   rename of volume.meta failed                                            (F11)
+    - [fix_children] removeDiskNode also deletes the removed disk's diskChildrenMap entry  (F12) *)
+Record cfg := mkcfg { maxlen : nat; fixed : bool; fix_dup : bool; fix_rev : bool; fix_commit : bool;
+                      fix_children : bool }.
 
 Definition chain_fuel (g : cfg) : nat := S (S (maxlen g)).
 Definition mchain (g : cfg) (m : mem) : option (list dname) :=
@@ -528,7 +537,7 @@ Definition remove_disk_node (g : cfg) (m : mem) (d : dname) : prog (mem * res) :
       match m_children m (Some d) with
       | [] =>
           let m1 := update_child m d None in
-          Ret (set_disks m1 (updd (m_disks m1) d None), Ok)
+          Ret (set_disks m1 (updd (m_disks m1) d None), Ok)     (* no diskChildrenMap entry to delete *)
       | _ :: _ :: _ => Ret (m, Failed)                        (* "Cannot remove snapshot with n children" *)
       | [child] =>
           let m1 := update_child m d (Some child) in
@@ -556,6 +565,7 @@ Definition remove_disk_node (g : cfg) (m : mem) (d : dname) : prog (mem * res) :
               let '(m3, e2) := m3e in
               if negb (is_ok e2) then Abort Fatal else
               let m4 := set_disks m3 (updd (m_disks m3) d None) in
+              let m4 := if fix_children g then set_children m4 (updc (m_children m4) (Some d) []) else m4 in
               if negb (find_disk m4 d) then Ret (m4, Ok) else
               (* r.volume.RemoveIndex(index) closes the file; len(activeDiskData)-2 == index: info.Parent *)
               let m5 := match rev (m_active m4) with
